@@ -148,6 +148,12 @@ func (c *pipelineConn) write(m []byte, qid uint16) (err error) {
 		}
 		_, err = c.c.Write(b)
 		pool.ReleaseBuf(b)
+		if err != nil {
+			// The connection is dead (e.g. reset by the server while it was
+			// idle). Close it now so that the retry does not pick it again
+			// before the read loop has noticed.
+			c.closeWithErr(fmt.Errorf("write err, %w", err))
+		}
 		return err
 	}
 
